@@ -97,7 +97,7 @@ DeclType(D, packed) ==
 CounterType(D) == IF D.type = "str" /\ D.size >= 65536 THEN "uint" ELSE "int"
 
 \* store conversion to the declared type (C: implicit conversion on assignment)
-StoreConv(x, D) ==
+StoreConvV(x, D) ==
   IF x.s # "ok" THEN x
   ELSE CASE D.type = "bool" -> Ok(IF x.v # 0 THEN 1 ELSE 0, "int")
     [] D.type = "enum" -> Ok(x.v, "int")
@@ -109,7 +109,7 @@ StoreConv(x, D) ==
     [] OTHER -> Ok(x.v, "int")
 
 \* ---- binary operators on evaluated operands ----
-Arith(op, a0, b0) ==
+ArithV(op, a0, b0) ==
   IF a0.s # "ok" \/ b0.s # "ok" THEN Worst(a0, b0)
   ELSE LET t == UAC(a0.t, b0.t) a == Conv(a0, t) b == Conv(b0, t) IN
     IF a.s # "ok" \/ b.s # "ok" THEN Wide
@@ -126,7 +126,7 @@ Arith(op, a0, b0) ==
            [] op = "|" -> Ok(OrI(a.v, b.v), t)
            [] op = "^" -> Ok(XorI(a.v, b.v), t)
 
-Cmp(op, a0, b0) ==
+CmpV(op, a0, b0) ==
   IF a0.s # "ok" \/ b0.s # "ok" THEN Worst(a0, b0)
   ELSE LET t == UAC(a0.t, b0.t) a == Conv(a0, t) b == Conv(b0, t) IN
     IF a.s # "ok" \/ b.s # "ok" THEN Wide
@@ -136,7 +136,7 @@ Cmp(op, a0, b0) ==
 
 Bits(t) == IF t \in {"int", "uint"} THEN 32 ELSE 64
 
-Shift(left, a, b) ==
+ShiftV(left, a, b) ==
   IF a.s # "ok" \/ b.s # "ok" THEN Worst(a, b)
   ELSE IF b.v < 0 \/ b.v >= Bits(a.t) THEN UB
   ELSE IF left THEN
@@ -148,6 +148,13 @@ Shift(left, a, b) ==
   \* right shift; gcc shifts negative values arithmetically (implementation-defined, not undefined)
   ELSE IF b.v >= 31 THEN Ok(IF a.v < 0 THEN -1 ELSE 0, a.t)
   ELSE Ok(a.v \div Pow2(b.v), a.t)
+
+\* TLC passes operator arguments unevaluated and re-evaluates them at every use; binding them through a singleton
+\* set forces one evaluation (otherwise the cost is exponential in the depth of an expression tree)
+Arith(op, a0, b0) == CHOOSE x \in {ArithV(op, a, b) : a \in {a0}, b \in {b0}} : TRUE
+Cmp(op, a0, b0) == CHOOSE x \in {CmpV(op, a, b) : a \in {a0}, b \in {b0}} : TRUE
+Shift(left, a0, b0) == CHOOSE x \in {ShiftV(left, a, b) : a \in {a0}, b \in {b0}} : TRUE
+StoreConv(x0, D) == CHOOSE y \in {StoreConvV(x, D) : x \in {x0}} : TRUE
 
 \* ---- evaluation ----
 \* env: [d |-> store (name -> cell), decl |-> name -> decl record, last |-> Int,
@@ -164,11 +171,12 @@ RECURSIVE FoldLogic(_, _, _, _)
 \* short-circuit: isor: stop at first non-zero; isand: stop at first zero
 FoldLogic(cs, i, isor, env) ==
   IF i > Len(cs) THEN Ok(IF isor THEN 0 ELSE 1, "int")
-  ELSE LET x == Eval(cs[i], env) IN
+  ELSE CHOOSE res \in {
     IF x.s # "ok" THEN x
     ELSE IF isor /\ x.v # 0 THEN Ok(1, "int")
     ELSE IF ~isor /\ x.v = 0 THEN Ok(0, "int")
     ELSE FoldLogic(cs, i + 1, isor, env)
+    : x \in {Eval(cs[i], env)}} : TRUE
 
 Eval(e, env) ==
   CASE e.k = "lit" -> Ok(e.v, "int")
@@ -176,13 +184,14 @@ Eval(e, env) ==
     [] e.k = "var" -> LET D == env.decl[e.name] IN Ok(env.d[e.name].v, DeclType(D, env.cfg.packed))
     [] e.k = "len" -> Ok(env.d[e.name].len, CounterType(env.decl[e.name]))
     [] e.k = "idx" ->
-         LET i == Eval(e.i, env) D == env.decl[e.name] cell == env.d[e.name]
-             size == D.size IN
+         LET D == env.decl[e.name] cell == env.d[e.name] size == D.size IN
+         CHOOSE res \in {
          IF i.s # "ok" THEN i
          ELSE IF i.v >= 0 /\ i.v < size
               THEN (IF cell.al \in {"null", "freed"} THEN UB
                     ELSE Ok(ByteAsChar(cell.buf[i.v + 1], env.cfg.u8 \/ D.type = "raw"), "int"))
               ELSE (IF env.cfg.unsafe THEN UB ELSE Ok(0, "int"))
+         : i \in {Eval(e.i, env)}} : TRUE
     [] e.k = "last" -> Ok(env.last, "int")
     [] e.k = "sum" -> FoldArith(Eval(e.c[1], env), e.c, [j \in 1..Len(e.neg) |-> IF e.neg[j] THEN "-" ELSE "+"], 2, env)
     [] e.k = "mul" -> FoldArith(Eval(e.c[1], env), e.c, e.ops, 2, env)
